@@ -21,7 +21,7 @@
 EXTENDS Integers, Sequences, FiniteSets, TLC, Json, IOUtils
 
 Rec == ndJsonDeserialize(IOEnv.TRACE)
-Kinds == {"add", "stream", "get", "die", "st", "creq", "cserved", "cdone", "csessions", "calive", "end"}
+Kinds == {"add", "stream", "get", "die", "st", "creq", "cserved", "cdone", "csessions", "calive", "ckill", "cstate", "end"}
 
 InitSt(e) == [CI |-> IF "consts" \in DOMAIN e THEN e.consts.CI ELSE 1,
               IT |-> IF "consts" \in DOMAIN e THEN e.consts.IT ELSE 1,
@@ -29,6 +29,7 @@ InitSt(e) == [CI |-> IF "consts" \in DOMAIN e THEN e.consts.CI ELSE 1,
               inmap |-> {}, since |-> <<>>, streams |-> <<>>, closed |-> {}, died |-> {},
               cact |-> <<>>,       \* client level: session -> active requests
               cof |-> <<>>,        \* request -> session
+              cinmap |-> {},       \* client level: sessions the idle map holds under the pinned design (dialled, not yet reused)
               cclosed |-> {}]
 
 Ok(s)      == [ok |-> TRUE, st |-> s, why |-> "", dev |-> "", site |-> ""]
@@ -81,12 +82,18 @@ Apply(s, e) ==
       [] e.ev = "st" -> Tick(s, e)
       \* ---------------------------------------------------------------- client level
       [] e.ev = "creq" -> Ok(s)
+      [] e.ev = "ckill" -> Ok([s EXCEPT !.cclosed = @ \cup {e.s}])
+      [] e.ev = "cstate" -> Ok([s EXCEPT !.cclosed = @ \cup {e.closed[i] : i \in 1..Len(e.closed)}])
       [] e.ev = "cserved" ->
-            LET idle == {x \in DOMAIN s.cact : s.cact[x] = 0 /\ x \notin s.cclosed}
+            LET idle == {x \in DOMAIN s.cact : s.cact[x] = 0 /\ x \notin s.cclosed}        \* healthy, no active request
+                held == {x \in s.cinmap : x \notin s.cclosed}                               \* healthy entries of the idle map
                 s2 == [s EXCEPT !.cact = Put(@, e.s, (IF e.s \in DOMAIN s.cact THEN s.cact[e.s] ELSE 0) + 1),
-                                !.cof = Put(@, e.r, e.s)]
-            IN  IF e.sclosed THEN No(s, "a request was served on a closed session")
-                ELSE IF e.new /\ idle # {} THEN Dv(s2, "SessionNeverReturnedToPool", "client")
+                                !.cof = Put(@, e.r, e.s),
+                                !.cinmap = IF e.new THEN @ \cup {e.s} ELSE @ \ {e.s}]
+            IN  IF e.sclosed \/ e.s \in s.cclosed THEN No(s, "a request was served on a closed session")
+                ELSE IF e.new /\ held # {} THEN No(s, "a new session was dialled although the idle map holds a healthy session")
+                ELSE IF ~e.new /\ e.s \notin s.cinmap THEN No(s, "a request was served on a session the pool cannot hold (handed out twice)")
+                ELSE IF e.new /\ idle # {} THEN Dv(s2, "SessionNeverReturnedToPool", "client")   \* healthy idle sessions exist but none is in the map
                 ELSE Ok(s2)
       [] e.ev = "cdone" -> Ok([s EXCEPT !.cact[s.cof[e.r]] = @ - 1])
       [] e.ev = "csessions" ->
